@@ -109,6 +109,33 @@ class TabProblem(Problem):
         return self._initpol[s]
 
 
+class TabProblemVariant(TabProblem):
+    """A parameter-variant subclass: it inherits every method (`initial_policy`, `initial_value`, `transition` …) from its parent and defines
+    none itself — a problem supplied through an intermediate class must behave exactly like one that defines the methods in its own body."""
+
+    @property
+    def name(self):
+        return "tabular-variant"
+
+
+class _PolicyMixin:
+    """supplies `initial_policy` from outside the problem class hierarchy"""
+
+    def initial_policy(self, state):
+        if self._initpol is None:
+            raise NotImplementedError("No custom initial policy defined")
+        s = jnp.clip(jnp.dot(state - self._smins, self._sstr), 0, self._rew.shape[0] - 1)
+        return self._initpol[s]
+
+
+class TabProblemMixed(_PolicyMixin, TabProblemVariant):
+    pass
+
+
+def make_problem(spec):
+    return {"variant": TabProblemVariant, "mixin": TabProblemMixed}.get(spec.get("via"), TabProblem)(spec)
+
+
 def tabulate(problem):
     """Tables of any Problem, obtained by calling the problem's own functions on every (s,a,e).
     Returns python ints / floats (exact)."""
